@@ -132,6 +132,9 @@ class SymInt:
 
     def __floordiv__(s, o):
         if isinstance(o, int) and not isinstance(o, bool) and o > 0:
+            ex = _exact_div(s.e, o)
+            if ex is not None:
+                return mkint(ex)
             return mkint(s.e / o)  # SMT-LIB div floors for a positive divisor
         raise Unmodelled("floordiv by non-positive/symbolic divisor")
 
@@ -185,6 +188,26 @@ class SymInt:
     __hash__ = None
 
 
+def _exact_div(e, o):
+    """e / o when e is syntactically a sum of multiples of o (then floor division is exact); else None"""
+    e = z3.simplify(e)
+
+    def term(t):
+        if z3.is_int_value(t):
+            return z3.IntVal(t.as_long() // o) if t.as_long() % o == 0 else None
+        if z3.is_app(t) and t.decl().kind() == z3.Z3_OP_MUL and t.num_args() == 2 and z3.is_int_value(t.arg(0)):
+            c = t.arg(0).as_long()
+            return (c // o) * t.arg(1) if c % o == 0 else None
+        return None
+
+    if z3.is_app(e) and e.decl().kind() == z3.Z3_OP_ADD:
+        parts = [term(t) for t in e.children()]
+        if all(p is not None for p in parts):
+            return z3.Sum(parts)
+        return None
+    return term(e)
+
+
 class Dec:
     """decimal rendering of a non-negative int term, width in [wlo, whi] (zero padded up to wlo)"""
 
@@ -208,6 +231,20 @@ class Dec:
             return w
 
         return z3.simplify(map_leaves(self.v, leafw))
+
+
+def _small_digits(v, w, lo, hi):
+    """decimal digits (most significant first) of a small bounded term without div/mod: the leading digit is a
+    piecewise-constant function of v (threshold If-chain), the rest is v minus that digit's weight"""
+    if w == 1:
+        return [v]
+    p = 10 ** (w - 1)
+    tlo, thi = lo // p, hi // p
+    top = z3.IntVal(thi)
+    for t in range(thi - 1, tlo - 1, -1):
+        top = z3.If(v < (t + 1) * p, t, top)
+    rem = v - top * p
+    return [top] + _small_digits(rem, w - 1, 0 if tlo != thi else lo - tlo * p, p - 1 if tlo != thi else hi - tlo * p)
 
 
 class Opt:
@@ -248,6 +285,9 @@ class SymStr:
                 b = ival(q.v)
                 if q.wlo == 1:
                     out.append(z3.simplify(q.v + 48))
+                    continue
+                if b is not None and 0 <= b[0] and b[1] < 10**q.wlo and b[1] < 10000:
+                    out.extend(z3.simplify(d + 48) for d in _small_digits(q.v, q.wlo, b[0], b[1]))
                     continue
                 for k in range(q.wlo - 1, -1, -1):
                     out.append(z3.simplify((q.v / (10**k)) % 10 + 48))
@@ -461,6 +501,9 @@ def str_eq(a, b):
                 conds.append(zc(x) == zc(y))
         if ok:
             return mkbool(z3.And(conds)) if conds else True
+    al = _aligned_eq(a, b)
+    if al is not None:
+        return al
     a, b = a.norm(), b.norm()
     if not (a.dense() and b.dense()):
         # var-width decimal pieces: equal iff same width and same digits; fork on the widths
@@ -474,6 +517,69 @@ def str_eq(a, b):
                 return False
             continue
         conds.append(zc(x) == zc(y))
+    return mkbool(z3.And(conds)) if conds else True
+
+
+def _aligned_eq(a, b):
+    """equality when fixed-width decimal pieces on one side face plain characters on the other: compare the
+    number with the value of the digit characters instead of extracting digits (keeps the arithmetic linear)"""
+    if a.dense() and b.dense():
+        return None
+
+    def widths(s):
+        out = []
+        for q in s.p:
+            if isinstance(q, Opt) or (isinstance(q, Dec) and q.wlo != q.whi):
+                return None
+            out.append(q.wlo if isinstance(q, Dec) else 1)
+        return out
+
+    wa, wb = widths(a), widths(b)
+    if wa is None or wb is None:
+        return None
+    if sum(wa) != sum(wb):
+        return False
+    # expand both sides into unit slots: ("c", term) or ("D", dec, k) with k = digit index from the left
+    def slots(s, ws):
+        out = []
+        for q, w in zip(s.p, ws):
+            if isinstance(q, Dec):
+                out.extend(("D", q, k) for k in range(w))
+            else:
+                out.append(("c", q))
+        return out
+
+    sa, sb = slots(a, wa), slots(b, wb)
+    conds, i, n = [], 0, len(sa)
+    while i < n:
+        x, y = sa[i], sb[i]
+        if x[0] == "c" and y[0] == "c":
+            if isinstance(x[1], int) and isinstance(y[1], int):
+                if x[1] != y[1]:
+                    return False
+            else:
+                conds.append(zc(x[1]) == zc(y[1]))
+            i += 1
+            continue
+        d = x if x[0] == "D" else y
+        dec = d[1]
+        w = dec.wlo
+        if d[2] != 0 or i + w > n:
+            return None
+        other = sb if x[0] == "D" else sa
+        seg = other[i : i + w]
+        if all(t[0] == "D" and t[1] is seg[0][1] for t in seg) and seg[0][2] == 0 and seg[0][1].wlo == w:
+            conds.append(dec.v == seg[0][1].v)
+        elif all(t[0] == "c" for t in seg):
+            val = 0
+            for t in seg:
+                c = zc(t[1])
+                conds.append(z3.And(c >= 48, c <= 57))
+                val = val * 10 + (c - 48)
+            conds.append(dec.v == val)
+        else:
+            return None
+        i += w
     return mkbool(z3.And(conds)) if conds else True
 
 
